@@ -8,7 +8,7 @@ PATCH="$(readlink -f "$1")"; TIER="$2"; shift 2
 HERE="$(cd "$(dirname "$0")/.." && pwd)"
 if ! git -C /repo diff --quiet; then echo "refusing: /repo has uncommitted changes"; exit 2; fi
 git -C /repo apply "$PATCH" || { echo "patch does not apply"; exit 2; }
-trap 'git -C /repo checkout -- . ; git -C /repo clean -fdq' EXIT
+trap 'git -C /repo checkout -- . ; git -C /repo clean -fdq; "$HERE/build.sh"' EXIT
 export VERIF_EVIDENCE_DIR=/dev/null
 for id in "$@"; do
   out="$(VERIF_NO_EVIDENCE=1 "$HERE/run.sh" "$id" "$TIER" 2>&1)"; rc=$?
